@@ -53,7 +53,10 @@ BASE_KINDS = [
     ["pi", "lingrad", "comment", "foreignel", "titledesc"],
 ]
 
+OPTION_BASES = {"K:hrefgrad/xformed", "K:clipped", "K:gclip:circle+lingrad", "K:lingrad/radgrad", "K:gop:rect+circle", "K:text", "K:use", "K:symbolanon/polygon/polyline", "K:pi/lingrad/comment/foreignel/titledesc"}
 G_PARENTS = {"svg", "g", "defs", "symbol"}
+# foreign-namespace attributes whose *local* name is an SVG attribute the conversion reads
+FIELD_ATTRS = {"fill": "lime", "opacity": "0.1", "transform": "translate(40 40)", "display": "none", "d": "M0,0 L90,0 L90,90 Z", "cx": "1", "width": "1", "id": "dup", "style": "fill:pink"}
 NOISE = ["comment", "pi", "title", "desc", "metadata", "foreignel", "symbol", "ws"]
 
 
@@ -116,6 +119,8 @@ def positions(root):
                 ops.append((kind, ei, ci, 0))
         ops.append(("foreignattr-root", ei, 0, 0))
         ops.append(("foreignattr-self", ei, 0, 0))
+        for fld in FIELD_ATTRS:
+            ops.append(("foreignattr-field:" + fld, ei, 0, 0))
         if loc in G_PARENTS - {"defs"} or loc == "defs":
             # wrapper g around one child / a run of children
             kids = [c for c in el if isinstance(c.tag, str)]
@@ -179,6 +184,9 @@ def apply_ops(doc, ops):
             else:
                 ch = el[ci - 1]
                 ch.tail = (ch.tail or "") + "\n  \t"
+        elif kind.startswith("foreignattr-field:"):
+            fld = kind.split(":", 1)[1]
+            el.set("{%s}%s" % (FOREIGN, fld), FIELD_ATTRS[fld])
         elif kind == "foreignattr-self":
             el.set("{%s}label" % FOREIGN + str(k), "v")
         elif kind == "foreignattr-root":
@@ -265,11 +273,11 @@ def same_canon(a, b):
     return all(abs(x - y) <= 2e-5 * max(1.0, abs(x), abs(y)) for x, y in zip(a[1], b[1]))
 
 
-def convert(doc):
+def convert(doc, opts=None):
     from picosvg.svg import SVG
 
     try:
-        return "returned", SVG.fromstring(doc).topicosvg().tostring()
+        return "returned", SVG.fromstring(doc).topicosvg(**(opts or {})).tostring()
     except Exception as e:  # noqa
         return "raised:" + type(e).__name__, f"{type(e).__name__}: {e}"
 
@@ -277,17 +285,18 @@ def convert(doc):
 _BASE_CACHE = {}
 
 
-def base_result(name, doc):
-    if name not in _BASE_CACHE:
-        o, out = convert(doc)
-        _BASE_CACHE[name] = (o, canon(out) if o == "returned" else None, out)
-    return _BASE_CACHE[name]
+def base_result(name, doc, opts=None):
+    key = (name, repr(opts))
+    if key not in _BASE_CACHE:
+        o, out = convert(doc, opts)
+        _BASE_CACHE[key] = (o, canon(out) if o == "returned" else None, out)
+    return _BASE_CACHE[key]
 
 
-def judge(name, doc, ops):
-    bo, bc, bout = base_result(name, doc)
+def judge(name, doc, ops, opts=None):
+    bo, bc, bout = base_result(name, doc, opts)
     noisy = apply_ops(doc, ops)
-    o, out = convert(noisy)
+    o, out = convert(noisy, opts)
     if o != bo:
         return o, f"clean document: {bo} ({'' if bo == 'returned' else bout[:120]}); with noise {ops}: {o} ({out[:160] if o != 'returned' else ''})", noisy, out
     if o == "returned":
@@ -315,7 +324,7 @@ def evaluate(case):
     for oplist in todo:
         n += 1
         try:
-            o, why, noisy, out = judge(name, doc, [tuple(x) for x in oplist])
+            o, why, noisy, out = judge(name, doc, [tuple(x) for x in oplist], case.get("opts"))
         except Exception as e:  # harness problem building the noisy doc
             outs["harness-skip:" + type(e).__name__] += 1
             continue
@@ -327,9 +336,9 @@ def evaluate(case):
         if why and len(viols) < 6:
             viols.append(
                 {
-                    "sig": {"kind": "noise-changes-output", "noise": "+".join(sorted({x[0] for x in oplist})), "base": name},
-                    "case": {"fam": "one", "name": name, "doc": doc, "ops": [list(x) for x in oplist]},
-                    "detail": {"why": why, "noisy": noisy[:2500], "output": out[:2500], "clean_output": base_result(name, doc)[2][:2500]},
+                    "sig": {"kind": "noise-changes-output", "noise": "+".join(sorted({x[0] for x in oplist})), "base": name, "options": ",".join(sorted(case.get("opts") or {}))},
+                    "case": {"fam": "one", "name": name, "doc": doc, "ops": [list(x) for x in oplist], "opts": case.get("opts")},
+                    "detail": {"why": why, "noisy": noisy[:2500], "output": out[:2500], "clean_output": base_result(name, doc, case.get("opts"))[2][:2500]},
                 }
             )
         elif why:
@@ -346,6 +355,11 @@ def cases(tier, seed):
         step = 40
         for lo in range(0, nops, step):
             yield {"mode": "single", "name": name, "doc": doc, "lo": lo, "hi": min(nops, lo + step)}
+            # the options are part of the conversion: ignorable content must stay ignorable under them too
+            if name in OPTION_BASES or (tier == "thorough" and name.startswith("K:")):
+                yield {"mode": "single", "name": name, "doc": doc, "lo": lo, "hi": min(nops, lo + step), "opts": {"drop_unsupported": True}}
+                if "text" in name:
+                    yield {"mode": "single", "name": name, "doc": doc, "lo": lo, "hi": min(nops, lo + step), "opts": {"allow_text": True}}
         if tier == "thorough" and name.startswith("K:"):
             for i in range(nops):
                 yield {"mode": "pair", "name": name, "doc": doc, "i": i}
@@ -355,8 +369,8 @@ def run(run):
     run.rule = (
         f"E2 deviation-bounded: {len(BASE_KINDS)} generated base documents + repository test inputs x noise kinds "
         "{comment, PI, title, desc, metadata(with RDF), foreign-namespace element with children, id-less symbol with content, whitespace, "
-        "foreign-namespace attribute (ns declared on root / on the element), attribute-less wrapper g around 1-3 siblings, XML declaration, PI+comment before root}: "
-        "all single insertions at every tree position (quick), all pairs on the generated set (thorough). Oracle: canonical form (gradient ids relabelled "
+        "foreign-namespace attribute (ns declared on root / on the element; also with local names that equal SVG attributes: fill, opacity, transform, display, d, cx, width, id, style), attribute-less wrapper g around 1-3 siblings, XML declaration, PI+comment before root}: "
+        "all single insertions at every tree position (quick; a subset of bases additionally with drop_unsupported=True / allow_text=True), all pairs on the generated set (thorough). Oracle: canonical form (gradient ids relabelled "
         "by first use, defs sorted, gradient parameters rounded to 5 places) of convert(N(D)) equals that of convert(D); same exception type counts as equal. "
         "Non-trivial = distinct noisy documents whose conversion returned."
     )
@@ -366,7 +380,7 @@ def run(run):
 
 
 def replay(case):
-    o, why, noisy, out = judge(case["name"], case["doc"], [tuple(x) for x in case["ops"]])
+    o, why, noisy, out = judge(case["name"], case["doc"], [tuple(x) for x in case["ops"]], case.get("opts"))
     if why:
         return [{"sig": {"kind": "noise-changes-output"}, "case": case, "detail": {"why": why, "noisy": noisy[:2500], "output": out[:2500]}}]
     return []
